@@ -191,6 +191,9 @@ func VerifC14Restart() {
 		resA[b] = verifRunBlock(ctx, k, am, ms, h, &plans[b], based(h), true)
 		snaps[b] = verifrt.Snapshot(ctx)
 		verifDebug("continuous", ctx, k, h, resA[b])
+		if p.TokenFeeders[1].EndBlock == 0 {
+			verifRoundIDs(ctx, k, p, h)
+		}
 	}
 
 	// ---- restarted instance: memory is gone, the store committed after `history` blocks remains
@@ -223,4 +226,28 @@ func VerifC14Restart() {
 func verifDebug(who string, ctx sdk.Context, k keeper.Keeper, h int64, res []bool) {
 	pr, found := k.GetPriceTRLatest(ctx, 1)
 	verifrt.Debug(nm("%s after block %d: accepted=%v latest price found=%v round=%d price=%q next round id=%d", who, h, res, found, pr.RoundID, pr.Price, k.GetNextRoundID(ctx, 1)), "")
+}
+
+// verifRoundIDs (C12): on the continuous node, after block h, every round whose submission
+// window has ended is recorded exactly once and no round that has not been opened yet is: the
+// stored round numbers are StartRoundID, StartRoundID+1, ... without gaps or repeats.
+func verifRoundIDs(ctx sdk.Context, k keeper.Keeper, p types.Params, h int64) {
+	f := p.TokenFeeders[1]
+	closed, opened := uint64(0), uint64(0)
+	for r := uint64(0); r < 8; r++ {
+		based := f.StartBaseBlock + r*f.Interval
+		if based+uint64(p.MaxNonce) <= uint64(h) {
+			closed++
+		}
+		if based+1 <= uint64(h) {
+			opened++
+		}
+	}
+	next := k.GetNextRoundID(ctx, 1)
+	recorded := next - f.StartRoundID
+	verifrt.Assert(verifrt.All(recorded >= closed, recorded <= opened), "every round is recorded exactly once: by the end of its submission window at the latest and not before it opened (round numbers advance by one per interval)")
+	for id := f.StartRoundID; id < next; id++ {
+		_, found := k.GetPriceTRRoundID(ctx, 1, id)
+		verifrt.Assert(found, "recorded round numbers have no gaps")
+	}
 }
